@@ -150,6 +150,18 @@ SaneFide(pos) ==
   /\ CastOK(pos)
   /\ (pos.ep < 8 => EpGeom(pos, pos.ep))
 
+\* a position that is sane except that it claims castling rights whose king or rook is not on its home square (texts
+\* with a habitual "KQkq").  Such a text may be refused; if it is imported, it is the described position, and the laws
+\* (a right alone does not make a castling move: king and rook must stand on their squares) say which moves it has.
+SaneExceptCast(pos) ==
+  /\ MaterialOK(pos.board)
+  /\ Cardinality(KingSquares(pos.board, White)) = 1
+  /\ Cardinality(KingSquares(pos.board, Black)) = 1
+  /\ \A s \in (0..7) \cup (56..63) : pos.board[s] \notin {"P", "p"}
+  /\ ~InCheck(pos.board, Other(pos.stm))
+  /\ (pos.ep < 8 => EpGeom(pos, pos.ep))
+ImportJudged(chars) == SyntaxClass(chars) = "A" /\ SaneExceptCast(Parse(chars))
+
 \* the engine-convention reading of a position: ep kept only when capturable
 Normalize(pos) ==
   [pos EXCEPT !.ep = IF pos.ep < 8 /\ EpGeom(pos, pos.ep) /\ EpCapturable(pos, pos.ep)
